@@ -50,6 +50,10 @@ pub struct FileSpec {
     /// single-quoted values, bare names, blanks around `=`), chosen per tag from this number.
     #[serde(default)]
     pub spelling: u64,
+    /// != 0 (languages with `//` comments only): each tag of this file sits, chosen from this
+    /// number, in a `//` line comment, a one-line `/* ... */` block comment or a `/** ... */` one.
+    #[serde(default)]
+    pub block_comments: u64,
 }
 
 #[derive(Serialize, Deserialize, Clone, Debug, PartialEq, Default)]
@@ -365,6 +369,7 @@ pub fn comment_leader(path: &str) -> &'static str {
     let ext = lang_key(path);
     match ext {
         "rs" | "js" | "go" | "ts" | "java" | "c" | "cpp" | "swift" | "kt" | "cs" | "php" => "//",
+        "md" | "markdown" | "html" => "<!--",
         _ => "#",
     }
 }
@@ -489,10 +494,26 @@ pub struct RenderedFile {
 
 pub const POISON_TAIL: &str = "<block name=\"poison-unclosed\" keep-sorted=\"asc\">";
 
+/// Wraps a tag in a comment of the file's language.
+fn comment(leader: &str, block_comments: u64, nth: usize, tag: &str) -> String {
+    if leader == "<!--" {
+        return format!("<!-- {tag} -->");
+    }
+    if block_comments == 0 || leader != "//" {
+        return format!("{leader} {tag}");
+    }
+    match crate::rng::mix_n(block_comments, nth as u64) % 4 {
+        0 => format!("// {tag}"),
+        1 => format!("/** {tag} */"),
+        _ => format!("/* {tag} */"),
+    }
+}
+
 fn render_block(
     b: &BlockSpec,
     tab_tags: bool,
     spelling: u64,
+    block_comments: u64,
     leader: &str,
     idx_path: &mut Vec<usize>,
     lines: &mut Vec<String>,
@@ -505,9 +526,11 @@ fn render_block(
     } else {
         idx_path.iter().fold(spelling, |a, i| crate::rng::mix_n(a, *i as u64 + 1)) | 1
     };
-    lines.push(format!(
-        "{leader} {}",
-        render_start_tag_spelled(b, if tab_tags { '\t' } else { ' ' }, spell)
+    lines.push(comment(
+        leader,
+        block_comments,
+        lines.len(),
+        &render_start_tag_spelled(b, if tab_tags { '\t' } else { ' ' }, spell),
     ));
     out.push(BlockLayout {
         path: idx_path.clone(),
@@ -522,14 +545,14 @@ fn render_block(
     }
     for (i, c) in b.children.iter().enumerate() {
         idx_path.push(i);
-        render_block(c, tab_tags, spelling, leader, idx_path, lines, out);
+        render_block(c, tab_tags, spelling, block_comments, leader, idx_path, lines, out);
         idx_path.pop();
     }
     for l in &b.tail {
         lines.push(l.clone());
     }
     let end_line = lines.len() + 1;
-    lines.push(format!("{leader} </block>"));
+    lines.push(comment(leader, block_comments, lines.len(), "</block>"));
     // content = "\n" + every line strictly between the tags, each followed by "\n"
     let mut content = String::from("\n");
     for l in &lines[start_line..end_line - 1] {
@@ -554,7 +577,7 @@ pub fn render_file(f: &FileSpec, poisoned: bool) -> RenderedFile {
     }
     for (i, b) in f.blocks.iter().enumerate() {
         let mut p = vec![i];
-        render_block(b, f.tab_tags, f.spelling, leader, &mut p, &mut lines, &mut blocks);
+        render_block(b, f.tab_tags, f.spelling, f.block_comments, leader, &mut p, &mut lines, &mut blocks);
         if wrapper.is_none() {
             lines.push(String::new());
         }
@@ -563,7 +586,7 @@ pub fn render_file(f: &FileSpec, poisoned: bool) -> RenderedFile {
         lines.push(close.to_string());
     }
     if poisoned {
-        lines.push(format!("{leader} {POISON_TAIL}"));
+        lines.push(comment(leader, 0, 0, POISON_TAIL));
         lines.push("zz".to_string());
         lines.push("aa".to_string());
     }
